@@ -198,6 +198,9 @@ func envDims(e *ReplicaEnv) []string {
 	if n.EvmTracer != "" {
 		parts = append(parts, "config.evm_tracer")
 	}
+	if n.Telemetry {
+		parts = append(parts, "config.telemetry")
+	}
 	if e.Queries {
 		parts = append(parts, "queries")
 	}
@@ -249,6 +252,8 @@ func project(e *ReplicaEnv, dim string) ReplicaEnv {
 		o.Node.InvCheckPeriod = e.Node.InvCheckPeriod
 	case "config.evm_tracer":
 		o.Node.EvmTracer = e.Node.EvmTracer
+	case "config.telemetry":
+		o.Node.Telemetry = true
 	case "interleave":
 		o.Interleave = true
 	case "queries":
@@ -292,6 +297,7 @@ func RunReplica(rt *Runtime, r *RunCtx, g *Built, recs []*BlockRecord, env *Repl
 	rt.Bubble(env.WallOffsetS, func() {
 		SetMapOrder(env.MapOrder, seed)
 		defer SetMapOrder("", 0)
+		defer setTelemetry(setTelemetry(env.Node.Telemetry))
 		db := sdkdb.NewMemDB()
 		n := NewNode(env.Name, db, env.Node)
 		n.Observe = false
@@ -421,6 +427,7 @@ func genReplicas(rng *rand.Rand, nBlocksHint int, count int, vestEnds []int64) [
 				Trace:          rng.IntN(2) == 0,
 				InvCheckPeriod: uint(pick(rng, 0, 1, 3)),
 				EvmTracer:      pick(rng, "", "struct", "access_list"),
+				Telemetry:      rng.IntN(2) == 0,
 			}
 			if rng.IntN(2) == 0 {
 				e.Node.IndexEvents = []string{"tx.height", "message.sender"}
